@@ -279,6 +279,7 @@ class C01(base.StoreSpec):
     extract_also = ["C02"]
     counts = {"quick": 700, "thorough": 8000}
     trusted_base = [
+        "stream and trace engines: oracle only (driver mrw runs real stream/trace tsTable histories, checks/C02.py st_oracle judges them; no Lean model)",
         "Lean 4.33.0 kernel",
         "bv_decide leaf lemma Banyan.Bits.uToInt64_int64ToU (int64 ordered-bytes round trip, property C12)",
         "correspondence check: Go driver hooks/banyand/internal/verifdrv/mrw: rows -> encodeTagValue/encodeFieldValue -> dataPoints -> "
@@ -308,6 +309,9 @@ class C01(base.StoreSpec):
         nbat = 4 if n < 5000 else 40
         for _ in range(nbat):
             out.append(case_batch_boundary(rng, "bat"))
+        for _ in range(120 if n < 5000 else 2000):         # oracle-only: stream and trace tables
+            out.append(base.case_st(rng, "strm"))
+            out.append(base.case_st(rng, "trc"))
         for _ in range(n - nblk - nsize - nbat):
             r = rng.random()
             if r < 0.7:
@@ -327,7 +331,12 @@ class C01(base.StoreSpec):
     def directed(self, rng, seeds, n):
         return list(seeds[:50]) + [case_exact(rng, "exact") for _ in range(min(n, 5000))]
 
+    def shrink(self, line, still_fails):
+        return line if base.st_is(line) else base.StoreSpec.shrink(self, line, still_fails)
+
     def oracle(self, line, g):
+        if base.st_is(line):
+            return base.st_oracle(line, g)
         c = self.crashed(g)
         if c:
             return ("violation", "implementation failed: " + c[:300])
@@ -404,7 +413,7 @@ class C01(base.StoreSpec):
         return known
 
     def compare(self, line, g, l):
-        if g == l:
+        if g == l or base.st_is(line):      # stream/trace tables: no Lean model, oracle only
             return True
         # the model returns float bits exactly; where the implementation's float column codec does not (F1), the
         # oracle has already classified the case – everything else must agree
